@@ -96,6 +96,44 @@ def selEntry (data : List Nat) (next : Nat) : Outcome (List Nat × Nat) :=
 /-- `UnsignedInt.encode` of a one-byte field: `value >> 0 & 0xff` of a Python int. -/
 def wireByte (i : Int) : Nat := (i % 256).toNat
 
+/-- What `SelEntry._from_response` leaves in the object. -/
+structure Entry where
+  data : List Nat
+  recordId : Nat
+  type : Nat
+  timestamp : Nat
+  generatorId : Nat
+  evmRev : Nat
+  sensorType : Nat
+  sensorNumber : Nat
+  deassert : Bool          -- event_direction == EVENT_DEASSERTION
+  eventType : Nat
+  eventData : List Nat
+  deriving Repr, DecidableEq, Inhabited
+
+/-- `SelEntry._from_response(data)`: 16 bytes, `pop_unsigned_int` (little endian) field by field
+- record id 2, type 1 (02h / C0h..FFh, else DecodingError), timestamp 4, generator id 2, EvM rev,
+sensor type, sensor number, `event_desc` (`& 0x80` direction, `& 0x7f` event type), 3 data bytes -
+whatever the record type is. -/
+def decodeEntry (data : List Nat) : Outcome Entry :=
+  if data.length ≠ 16 then .decodingError
+  else
+    let t := data.getD 2 0
+    if t = 2 ∨ (0xC0 ≤ t ∧ t < 0x100) then
+      let desc := data.getD 12 0
+      .ok { data := data
+            recordId := leVal (data.take 2)
+            type := t
+            timestamp := leVal ((data.drop 3).take 4)
+            generatorId := leVal ((data.drop 7).take 2)
+            evmRev := data.getD 9 0
+            sensorType := data.getD 10 0
+            sensorNumber := data.getD 11 0
+            deassert := desc / 128 % 2 == 1
+            eventType := desc % 128
+            eventData := (data.drop 13).take 3 }
+    else .decodingError
+
 /-- `req.length = self.max_req_len`, clamped to the end of the record for partial reads. -/
 def reqLen (cfg : Cfg) (maxReq : Int) (off : Nat) : Int :=
   if maxReq ≠ (cfg.entire : Int) ∧ (off : Int) + maxReq > (cfg.recLen : Int) then (cfg.recLen : Int) - (off : Int)
